@@ -45,6 +45,42 @@ theorem copy_idempotent_trees (dst : Dest) (roots : List Nat) (reach : List CTre
     t ∈ (copyStep (copyStep dst roots reach) roots reach).trees :=
   copyStep_trees ht
 
+/-! #### copy: the walk from all roots completes every snapshot, whatever the destination already holds -/
+
+mutual
+theorem STree.present_of (d : Dest) : (s : STree) → s.id ∈ d.trees →
+    (∀ t ∈ s.flatten, (∀ k ∈ t.kids, k ∈ d.trees) ∧ ∀ x ∈ t.data, x ∈ d.data) → s.present d = true
+  | .node i dat ks, hid, h => by
+    have hroot := h ⟨i, ks.map STree.id, dat⟩ (by simp [STree.flatten])
+    simp only [STree.present, Bool.and_eq_true, List.contains_iff_mem, List.all_eq_true]
+    refine ⟨⟨hid, hroot.2⟩, STree.presentL_of d ks (fun k hk => hroot.1 _ (List.mem_map_of_mem hk)) ?_⟩
+    intro t ht
+    exact h t (by simp [STree.flatten, ht])
+theorem STree.presentL_of (d : Dest) : (ks : List STree) → (∀ k ∈ ks, k.id ∈ d.trees) →
+    (∀ t ∈ STree.flattenL ks, (∀ k ∈ t.kids, k ∈ d.trees) ∧ ∀ x ∈ t.data, x ∈ d.data) → STree.presentL d ks = true
+  | [], _, _ => rfl
+  | k :: ks, hids, h => by
+    simp only [STree.presentL, Bool.and_eq_true]
+    refine ⟨STree.present_of d k (hids k (by simp)) (fun t ht => h t ?_),
+      STree.presentL_of d ks (fun k' hk' => hids k' (by simp [hk'])) (fun t ht => h t ?_)⟩
+    · simp [STree.flattenL, ht]
+    · simp [STree.flattenL, ht]
+end
+
+theorem copyRun_presentL (dst : Dest) (snaps : List STree) : STree.presentL (copyRun dst snaps) snaps = true := by
+  have hc := copy_complete dst (snaps.map STree.id) (STree.flattenL snaps)
+  unfold destComplete at hc
+  simp only [Bool.and_eq_true, List.all_eq_true, List.contains_iff_mem] at hc
+  exact STree.presentL_of _ snaps (fun k hk => hc.1 _ (List.mem_map_of_mem hk)) (fun t ht => hc.2 t ht)
+
+theorem STree.presentL_mem {d : Dest} : {ks : List STree} → STree.presentL d ks = true → ∀ k ∈ ks, k.present d = true
+  | [], _, _, hk => by cases hk
+  | k :: ks, h, k', hk' => by
+    simp only [STree.presentL, Bool.and_eq_true] at h
+    rcases List.mem_cons.1 hk' with rfl | hm
+    · exact h.1
+    · exact STree.presentL_mem h.2 k' hm
+
 /-! ### repair -/
 
 mutual
